@@ -11,7 +11,8 @@ Clause map (property text → theorems):
 * "same value regardless of which poses were evaluated before"  → `score_indep_of_history`,
   `c2dStep_value`, `c2dRun_values`, `d2d_score_indep_of_history`, `d2dStep_value`, `d2dRun_values`
   (+ invariants `c2dStep_wf`, `d2dStep_wf`, `c2dInit_wf`, `d2dInit_wf`); pinned-code witness
-  `d2dStepOld_mask_never_written`.
+  `d2dStepOld_mask_never_written`; several objects alive at once, evaluated in turn: `poolRun_values`,
+  `c2dPool_values`, `d2dPool_values`.
 * "every registered score can be evaluated through the common interface" → `formatPose_split`,
   `formatPose_translation`, `formatPose_angles`, `flcWindow_len_eq`, `flcWindow_overlap`,
   `flcWindow_disjoint` (no pose makes the window arithmetic ill-formed), witness
@@ -390,5 +391,57 @@ theorem plsq_planted_zero {α : Type} [CommRing α] (w : List α) : plsq 0 w w =
 example := ncc_sq_le ([1, 2, 3] : List ℚ) [3, 2, 1] rfl
 example : dot (0 : Int) [1, 2, 3] [3, 2, 1] = 10 ∧ dot (0 : Int) [1, 2, 3] [1, 2, 3] = 14 := by decide
 example : plsq (0 : Int) [1, 2, 3] [3, 2, 1] = 8 := by decide
+
+/-! ## several objects evaluated in turn (interleaved histories) -/
+
+/-- generic: if every object's step returns its fresh-object value in each state satisfying an
+invariant that the step preserves, then along any schedule over any pool of objects every returned
+value is the fresh-object value of (that object, that pose) -/
+theorem poolRun_values {ι σ π β : Type} [DecidableEq ι] (step : ι → σ → π → β × σ)
+    (fresh : ι → π → β) (inv : ι → σ → Prop)
+    (hv : ∀ i s x, inv i s → (step i s x).1 = fresh i x)
+    (hp : ∀ i s x, inv i s → inv i (step i s x).2)
+    (sched : List (ι × π)) :
+    ∀ st : ι → σ, (∀ i, inv i (st i)) →
+      (poolRun step st sched).1 = sched.map (fun p => fresh p.1 p.2) := by
+  induction sched with
+  | nil => intro st _; rfl
+  | cons p rest ih =>
+    intro st h
+    obtain ⟨i, x⟩ := p
+    have h' : ∀ j, inv j (if j = i then (step i (st i) x).2 else st j) := by
+      intro j
+      by_cases hj : j = i
+      · subst hj; simpa using hp j (st j) x (h j)
+      · simpa [hj] using h j
+    simp only [poolRun, List.map_cons]
+    rw [ih _ h', hv i (st i) x (h i)]
+
+/-- coordinate scores of any classes / sizes / masks alive together: every value along any
+interleaving is the fresh-object value -/
+theorem c2dPool_values {α β : Type} (S : Nat → C2DStatic α β) (hasMask : Nat → Bool) (n m : Nat → Nat)
+    (hc : ∀ i, C2DContract (S i) (n i) (m i)) (sched : List (Nat × List α)) (st : Nat → C2DState α)
+    (hw : ∀ i, C2DWf (S i) (hasMask i) (n i) (m i) (st i)) :
+    (poolRun (fun i s x => c2dStep (S i) s x) st sched).1
+      = sched.map (fun p => c2dPure (S p.1) (hasMask p.1) p.2) :=
+  poolRun_values (fun i s x => c2dStep (S i) s x) (fun i x => c2dPure (S i) (hasMask i) x)
+    (fun i s => C2DWf (S i) (hasMask i) (n i) (m i) s)
+    (fun i s x h => c2dStep_value (S i) (hasMask i) (n i) (m i) (hc i) s h x)
+    (fun i s x h => c2dStep_wf (S i) (hasMask i) (n i) (m i) (hc i) s h x) sched st hw
+
+/-- density scores with templates of any shapes alive together (each with its own cached grid) -/
+theorem d2dPool_values {α β : Type} (S : Nat → D2DStatic α β) (L : Nat → Nat)
+    (hc : ∀ i, D2DContract (S i) (L i)) (sched : List (Nat × List α)) (st : Nat → D2DState α)
+    (hw : ∀ i, D2DWf (S i) (L i) (st i)) :
+    (poolRun (fun i s x => d2dStep (S i) s x) st sched).1 = sched.map (fun p => d2dPure (S p.1) p.2) :=
+  poolRun_values (fun i s x => d2dStep (S i) s x) (fun i x => d2dPure (S i) x)
+    (fun i s => D2DWf (S i) (L i) s)
+    (fun i s x h => d2dStep_value (S i) (L i) (hc i) s h x)
+    (fun i s x h => d2dStep_wf (S i) (L i) (hc i) s h x) sched st hw
+
+/-- non-vacuity: a normalised and a generic score evaluated in turn -/
+example : (poolRun (fun (i : Nat) s x => c2dStep (exC2D (if i = 0 then .normalised else .generic)) s x)
+    (fun _ => ⟨[0, 0], some [0], [0, 0], 0⟩) [(0, [1]), (1, [2]), (0, [3]), (1, [2])]).1 =
+    [[1, 1, 1, 1, 1, 1], [2, 2, 2, 2, 2, 0], [3, 3, 3, 3, 3, 3], [2, 2, 2, 2, 2, 0]] := by decide
 
 end Pm.C17
